@@ -71,6 +71,10 @@ def main():
                 d.reshape(-1)[rnd.choice(free)] = float("nan")
                 lst.append(numpy.ma.array(d, mask=m) if m.any() or rnd.random() < 0.6 else numpy.ma.array(d))    # (never unmask a hidden payload)
                 dist["nan_results_in_pool"] = dist.get("nan_results_in_pool", 0) + 1
+        # results that carry NO mask array (numpy.ma.nomask: what CvtToBinary or a user command returns when nothing is missing),
+        # with their cells in no particular order
+        raw.append(numpy.ma.array(numpy.array([rnd.randint(-6, 9) + rnd.choice([0, 0.5]) for _ in range(int(numpy.prod(shape)))], dtype=float).reshape(shape)))
+        fz.append(numpy.ma.array(numpy.array([rnd.randint(-8, 8) / 8.0 for _ in range(int(numpy.prod(shape)))]).reshape(shape)))
         pool = [(a, False) for a in raw] + [(a, True) for a in fz]
         snaps = [snap(a) for a, _ in pool]
         trace = []
@@ -130,6 +134,11 @@ def main():
                             p["NumberToConsider"] = rnd.randint(1, k)
                         dist["single_input_nary"] += int(k == 1)
                     idxs = [rnd.choice(cands) for _ in range(k)]
+                    nomaskc = [i for i in cands if numpy.ma.getmask(pool[i][0]) is numpy.ma.nomask]
+                    if nomaskc and rnd.random() < 0.35:
+                        idxs[0] = rnd.choice(nomaskc)
+                        if "IgnoreZeros" in p and rnd.random() < 0.7:
+                            p["IgnoreZeros"] = False
                     nanc = [i for i in cands if i < len(pool) and pool[i][0].dtype.kind == "f" and numpy.isnan(numpy.ma.getdata(pool[i][0])).any()]
                     if nanc and rnd.random() < 0.3:
                         idxs[0] = rnd.choice(nanc)
